@@ -122,6 +122,17 @@ def coq_assumptions(pid):
     return dict(rc=rc, out=out, theorems=theorems, printed=printed, closed=closed, axioms=axioms, bad_axioms=bad_axioms)
 
 
+def coqchk(pid):
+    """Thorough tier: the independent checker re-checks Properties/<pid>.vo and everything it depends on
+    and prints the axioms the whole context relies on."""
+    with Lock("coq"):
+        rc, out = sh(["coqchk", "-silent", "-o", "-Q", ".", "Zog", "Zog.Properties." + pid], cwd=COQ, timeout=3000)
+    summary = out[out.find("CONTEXT SUMMARY"):] if "CONTEXT SUMMARY" in out else out[-1500:]
+    clean = (rc == 0 and "Axioms: <none>" in summary and "type-in-type: <none>" in summary
+             and "unsafe (co)fixpoints: <none>" in summary and "positivity is assumed: <none>" in summary)
+    return dict(rc=rc, clean=clean, summary=" ".join(summary.split())[:1200])
+
+
 def count_qed(files):
     n = 0
     for f in files:
@@ -325,6 +336,11 @@ def decide(pid, tier, seed):
             proof_broken.append("theorems without Print Assumptions: %s" % sorted(set(asm["theorems"]) - set(asm["printed"])))
     elif okc:
         proof_broken.append("Properties/%s.v is missing" % pid)
+    chk = None
+    if tier == "thorough" and okc and not proof_broken:
+        chk = coqchk(pid)
+        if not chk["clean"]:
+            proof_broken.append("coqchk does not accept Properties/%s.vo with an empty axiom context: %s" % (pid, chk["summary"]))
     n_theorems = len(asm["theorems"]) if asm else len(cfg["theorems"])
     n_support = count_qed(cfg.get("cone", []))
     obligations = n_theorems + n_support
@@ -396,11 +412,12 @@ def decide(pid, tier, seed):
     ev = dict(property_id=pid, tier=tier, seed=seed, level="proof", wall_s=round(time.time() - t0, 1), violations=violations,
               coverage=dict(
                   obligations=max(obligations, 1), discharged=discharged,
-                  checker_cmd="cd /verif/coq && coq_makefile -f _CoqProject -o Makefile && make -j16  (coqc 8.16.1, full .vo build) ; coqc Properties/%s.v (Print Assumptions)" % pid,
+                  checker_cmd="cd /verif/coq && coq_makefile -f _CoqProject -o Makefile && make -j16  (coqc 8.16.1, full .vo build) ; coqc Properties/%s.v (Print Assumptions)%s" % (pid, " ; coqchk -silent -o -Q . Zog Zog.Properties.%s" % pid if chk else ""),
                   trusted_base=props.TRUSTED_BASE + cfg.get("trusted", []),
                   theorems=asm["theorems"] if asm else cfg["theorems"],
                   print_assumptions=dict(closed_under_global_context=asm["closed"] if asm else 0, axioms=asm["axioms"] if asm else []),
                   supporting_lemmas_qed=n_support,
+                  coqchk=(chk["summary"] if chk else "not run (thorough tier only): coqchk -silent -o -Q . Zog Zog.Properties.%s" % pid),
                   evaluations=evaluations, distinct_nontrivial=nontrivial,
                   rule=cfg.get("rule", ""), samples=samples or ["(no correspondence case was produced)"],
                   correspondence=dist, skipped_outside_model=skipped,
